@@ -469,7 +469,7 @@ EXPECT = {
 SCENARIOS = [
     ["-d"], ["-d", "--mesh", "2", "2", "2"], ["-d", "-t", "--band", "0", "0", "0", "1/2", "0", "0"], ["--rd", "2"],
     ["--rd", "2", "--rd-temperature", "300", "--mesh", "2", "2", "2"], ["-d", "--rd-temperature", "300"],
-    ["-f", "vasprun.xml-001", "vasprun.xml-002"], ["-f", "vasprun.xml-001", "vasprun.xml-002", "-d", "--mesh", "2", "2", "2"],
+    ["-f", "@VASPRUNS"], ["-f", "@VASPRUNS", "-d", "--mesh", "2", "2", "2"],
     ["--fc", "missing-vasprun.xml"], ["--fc", "missing-vasprun.xml", "-d"], ["--symmetry"], ["--symmetry", "-d", "--mesh", "2", "2", "2"],
     [], ["--mesh", "2", "2", "2"], ["--mesh", "2", "2", "2", "-t"], ["--mesh", "2", "2", "2", "--td"], ["--mesh", "2", "2", "2", "--tdm"],
     ["--mesh", "2", "2", "2", "--pdos", "1,", "2"], ["--mesh", "2", "2", "2", "--dos"], ["--mesh", "2", "2", "2", "--dos", "-t"],
@@ -505,11 +505,13 @@ def decision_checks(run, tmp, flow, rng, thorough):
         rng.shuffle(rest)
         scen = keep + rest[:12]
     lines, meta = [], []
+    vaspruns = sorted(f for f in os.listdir(src) if f.startswith("vasprun.xml-"))
     for argv in scen:
+        argv = [b for a in argv for b in (vaspruns if a == "@VASPRUNS" else [a])]
         d = os.path.join(tmp, "dec")
         shutil.rmtree(d, ignore_errors=True)
         os.makedirs(d)
-        for f in ("POSCAR", "FORCE_SETS", "phonopy_disp.yaml", "vasprun.xml-001", "vasprun.xml-002"):
+        for f in ["POSCAR", "FORCE_SETS", "phonopy_disp.yaml"] + vaspruns:
             if os.path.exists(os.path.join(src, f)):
                 shutil.copy(os.path.join(src, f), os.path.join(d, f))
         os.chdir(d)
